@@ -241,7 +241,7 @@ func parent(prop string) {
 		}
 		r.NontrivialN(id, res.Keys)
 	}
-	if label, ok := map[string]string{"C09": "stage1_validation_enumeration", "C01": "stage1_arithmetic_enumeration"}[prop]; ok {
+	if label, ok := map[string]string{"C09": "stage1_validation_enumeration", "C01": "stage1_arithmetic_enumeration", "C11": "stage1_status_enumeration"}[prop]; ok {
 		// stage 1 (engine E3) ran just before; embed what it covered
 		root := "/verif"
 		if d := os.Getenv("VERIF_OUT_ROOT"); d != "" {
